@@ -52,6 +52,9 @@ def mk_case(n, order, slots, extras, Dk, auto_ids=False):
             ev.append([a, {"k": "resp", "id": {"s": "nobody"}, "p": {"x": 1}}])
         elif kind == "req":
             ev.append([a, {"k": "req", "id": {"$CALLER": 0}, "method": "roots/list"}])
+        elif kind == "nullerr":
+            # an error the server could not attribute to any request (id null)
+            ev.append([a, {"k": "err", "id": None, "code": [-32700, -32600][seq % 2], "msg": "unattributable"}])
     ev.sort(key=lambda x: x[0])
     return {"callers": callers, "ev": ev}
 
@@ -67,7 +70,7 @@ class Concurrent(Suite):
         for n in range(1, maxn + 1):
             for perm in itertools.permutations(range(n)):
                 for slots in ([0] * n, list(range(n)), [1] * n):
-                    for extras in ([], [(0, "notif")], [(0, "notif"), (1, "foreign")]):
+                    for extras in ([], [(0, "notif")], [(0, "notif"), (1, "foreign")], [(0, "nullerr")]):
                         out.append(mk_case(n, [("resp", i) for i in perm], slots, extras, [4] * n))
                         if not extras:
                             out.append(mk_case(n, [("resp", i) for i in perm], slots, extras, [4] * n, auto_ids=True))
@@ -113,7 +116,7 @@ class Concurrent(Suite):
                 r = rng.random()
                 order.append(None if r < 0.1 else (("resp" if rng.random() < 0.8 else "err"), rng.randrange(n)))
             slots = sorted(rng.randint(0, 5) for _ in range(k))
-            extras = [(rng.randint(0, 5), rng.choice(["notif", "foreign", "req"])) for _ in range(rng.randint(0, 4))]
+            extras = [(rng.randint(0, 5), rng.choice(["notif", "foreign", "req", "nullerr"])) for _ in range(rng.randint(0, 4))]
             out.append(mk_case(n, order, slots, extras, [rng.randint(1, 5) for _ in range(n)], auto_ids=rng.random() < 0.4))
         ctx.exhaustive_parts.append("concurrent: every permutation of the answer order for 1..4 callers")
         return out
@@ -153,9 +156,12 @@ class Concurrent(Suite):
                 if wire[i] is not None and wire[i] == wire[j] and type(wire[i]) is type(wire[j]):
                     return ("duplicate-request-id", f"callers {i} and {j} both put id {wire[i]!r} on the wire: their responses cannot be told apart", None)
         for i, (spec, c) in enumerate(zip(case["callers"], o["callers"])):
-            mine = [(a, ev) for a, ev in case["ev"] if ev["k"] in ("resp", "err") and ev["id"] in ({"$CALLER": i}, spec.get("id"))]
+            mine = [(a, ev) for a, ev in case["ev"] if ev["k"] in ("resp", "err") and ev["id"] is not None
+                    and ev["id"] in ({"$CALLER": i}, spec.get("id"))]
             if c["outcome"] == "exception":
                 return ("unexpected-exception", f"caller {i}: {c.get('exc')}", None)
+            if c["outcome"] == "raised" and not any(ev["k"] == "err" for _, ev in mine):
+                return ("cross-talk", f"caller {i} (id {spec['id']}) raised a server error although no error response bears its id", None)
             if c["outcome"] == "returned":
                 if not any(ev["k"] == "resp" and ev["p"] == c.get("p") for _, ev in mine):
                     return ("cross-talk", f"caller {i} (id {spec['id']}) was handed {c.get('p')!r}, which no response to it carries", {"p": [ev.get("p") for _, ev in mine]})
@@ -182,6 +188,26 @@ class Concurrent(Suite):
 
 
 
+POISON = ["text", "deep-array", "deep-object", "huge-int", "huge-float", "lone-surrogate", "nan", "truncated", "nul", "two-docs", "bom"]
+
+
+def poison_line(kind):
+    """one stdout line that is not a JSON-RPC message"""
+    return {
+        "text": "INFO server started (pid 4242)",
+        "deep-array": "[" * 100000 + "]" * 100000,          # the decoders give up on this with different exceptions
+        "deep-object": '{"a":' * 50000 + "1" + "}" * 50000,
+        "huge-int": '{"jsonrpc":"2.0","method":"n","params":{"n":' + "9" * 6000 + "}}",   # int() digit limit
+        "huge-float": '{"jsonrpc":"2.0","method":"n","params":{"x":1e99999}}',
+        "lone-surrogate": '{"jsonrpc":"2.0","method":"n","params":{"t":"\\ud83d"}}'.replace("\\\\", "\\"),
+        "nan": '{"jsonrpc":"2.0","method":"n","params":{"x":NaN}}',
+        "truncated": '{"jsonrpc":"2.0","id":9,"result":{"a":1}',
+        "nul": "\x00\x00\x00",
+        "two-docs": '{"a":1}{"b":2}',
+        "bom": "\ufeff{}",
+    }[kind]
+
+
 class StdioBurst(Suite):
     """One caller on a REAL stdio connection (StdioClient behind the scripted-process seam): the
     child answers after a burst of K unrelated notifications written in one go.  K straddles the
@@ -204,6 +230,15 @@ class StdioBurst(Suite):
             for k in (ks if budget != "quick" else [0, 1, 3, 99, 101]):
                 for split in (False, True):
                     out.append({"k": k, "split": split, "id": f"burst-{k}", "D": 4 * P, "ver": ver})
+        # a line that is not a message precedes the answer (log noise, a document the decoder gives up
+        # on in an unusual way): it is dropped alone, the answer behind it still arrives
+        for poison in POISON:
+            for split in (False, True):
+                for ver in (None, "2025-06-18"):
+                    c = {"k": 2, "split": split, "id": "burst-p", "D": 4 * P, "poison": poison}
+                    if ver:
+                        c["ver"] = ver
+                    out.append(c)
         # a server that writes its output as ONE JSON-RPC batch line (legal before 2025-06-18 and when
         # no version has been negotiated): the members reach the caller as if written one by one
         for ver in (None, "2025-03-26", "2024-11-05"):
@@ -229,6 +264,8 @@ class StdioBurst(Suite):
 
         async def one(case):
             lines = [_json.dumps({"jsonrpc": "2.0", "method": "notifications/message", "params": {"i": i}}) for i in range(case["k"])]
+            if case.get("poison"):
+                lines.append(poison_line(case["poison"]))
             lines.append(_json.dumps({"jsonrpc": "2.0", "id": case["id"], "result": {"answer": case["k"]}}))
             if case.get("batch"):
                 items = [_json.loads(x) for x in lines]
@@ -283,7 +320,7 @@ class StdioBurst(Suite):
         return None if (o.get("outcome"), o.get("p")) == (m.get("outcome"), m.get("p")) else "differs"
 
     def kind(self, case, o):
-        return f"stdio-burst/{o.get('outcome')}/k{'<100' if case['k'] < 100 else '>=100'}/ver={case.get('ver')}" + ("/batch" if case.get("batch") else "")
+        return f"stdio-burst/{o.get('outcome')}/k{'<100' if case['k'] < 100 else '>=100'}/ver={case.get('ver')}" + ("/batch" if case.get("batch") else "") + ("/poison=" + case["poison"] if case.get("poison") else "")
 
     def nontrivial(self, case, o):
         return case["k"] > 0
